@@ -1,1 +1,2 @@
+pub mod boundgrid;
 pub mod clientgrid;
